@@ -368,7 +368,7 @@ def _conc_step_one(R, prop, extra_args=None, cases=None, suite="conc"):
                 continue
             b = "%s.%d" % (base, j)
             cmd = [C.HARNESS_BIN, suite, "--seed", str(seed), "--first", str(first), "--cases", str(cnt), "--lin", b + ".lin", "--progress", b + ".progress"]
-            if prop in ("C10", "C14"):
+            if prop in ("C10", "C14", "C11", "C12"):
                 cmd += ["--ctl", b + ".ctl"]
             if R.tier == "thorough":
                 cmd += ["--big", "1"]
@@ -416,8 +416,9 @@ def _conc_step_one(R, prop, extra_args=None, cases=None, suite="conc"):
         if prop in ("C10", "C14") and os.path.exists(C.MODEL_BIN) and ctl_src:
             # the run's accesses to size_ctl / transfer_index / table / next_table, replayed by the
             # Lean monitor of the resize theorems' conclusions (Proto/ResizeMonitor.lean)
-            heads = [l for l in ctl_src if l.startswith("#")]
-            reqs = [l for l in ctl_src if not l.startswith("#")]
+            pairs = [(ctl_src[i], ctl_src[i + 1]) for i in range(0, len(ctl_src) - 1, 2) if ctl_src[i + 1].startswith("ctl ")]
+            heads = [h for h, _ in pairs]
+            reqs = [r for _, r in pairs]
             open(base + ".ctl", "w").write("\n".join(reqs) + "\n")
             rc2, mout = C.sh("%s < %s.ctl" % (C.MODEL_BIN, base), timeout=1200)
             os.remove(base + ".ctl")
@@ -436,6 +437,36 @@ def _conc_step_one(R, prop, extra_args=None, cases=None, suite="conc"):
                     m = re.search(r"case-seed (\d+) mode (\w+)", h)
                     R.add_failing("[resize-monitor] the control-word accesses of a scheduled run contradict the resize theorems: %s (%s)" % (a, h[2:]),
                                   {"suite": suite, "how": "%s %s --mode %s --case-seed %s --verbose 1" % (C.HARNESS_BIN, suite, m.group(2) if m else "?", m.group(1) if m else "?")})
+        if prop in ("C11", "C12") and os.path.exists(C.MODEL_BIN) and ctl_src:
+            # every tree bin's lock (lock_state / waiter / park / unpark accesses of the run),
+            # replayed as a run of the proved lock model (Proto/RwLockMonitor.lean)
+            pairs = [(ctl_src[i], ctl_src[i + 1]) for i in range(0, len(ctl_src) - 1, 2) if ctl_src[i + 1].startswith("rw ")]
+            heads = [h for h, _ in pairs]
+            reqs = [r for _, r in pairs]
+            if reqs:
+                open(base + ".rw", "w").write("\n".join(reqs) + "\n")
+                rc2, mout = C.sh("%s < %s.rw" % (C.MODEL_BIN, base), timeout=1200)
+                os.remove(base + ".rw")
+                ans = [l for l in mout.splitlines() if not l.startswith("WARNING")]
+                if len(ans) != len(reqs):
+                    R.add_broken("correspondence lock-words-vs-RwLock-model: the monitor answered %d of %d streams (%s)" % (len(ans), len(reqs), mout[-200:]))
+                for h, a in zip(heads, ans):
+                    if a.startswith("ok"):
+                        agg["tree_bin_lock_streams_accepted_as_runs_of_the_lean_lock_model"] = agg.get("tree_bin_lock_streams_accepted_as_runs_of_the_lean_lock_model", 0) + 1
+                        for key, val in re.findall(r"(\w+)=(\d+)", a):
+                            agg["lock_monitor_" + key] = agg.get("lock_monitor_" + key, 0) + int(val)
+                    elif a.startswith("bad-op"):
+                        R.add_broken("correspondence lock-words-vs-RwLock-model: request not understood (%s)" % h)
+                    elif a.startswith("bad"):
+                        m = re.search(r"case-seed (\d+) mode (\w+)", h)
+                        # not by itself a failure of C11 / C12: the tie between the proved lock model and
+                        # the code is broken; the scheduler's deadlock / livelock / solo-read verdicts of
+                        # the same runs are the search for a failing input
+                        nbad = agg.get("lock_monitor_rejected_streams", 0)
+                        agg["lock_monitor_rejected_streams"] = nbad + 1
+                        if nbad < 3:
+                            R.add_broken("correspondence lock-words-vs-RwLock-model: a tree bin's lock accesses in a scheduled run are not a run of Proto/RwLock, the model the lock theorems are about: %s (%s; replay: %s %s --mode %s --case-seed %s --verbose 1)"
+                                         % (a, h[2:], C.HARNESS_BIN, suite, m.group(2) if m else "?", m.group(1) if m else "?"))
         if crashed:
             break
         if prop in ("C01", "C08") and os.path.exists(C.MODEL_BIN) and lin_src:
